@@ -172,7 +172,14 @@ class Row(Vector):
 			 return self._raw_cols[key][self._index]
 		
 		if type(key) is str:
-			 return getattr(self, key)
+			# A column (by accessor name, as for attribute access), never an attribute of the row object:
+			# row['sum'] used to return the bound method Row.sum when no column answers to 'sum'.
+			col_idx = self._column_map.get(key)
+			if col_idx is None:
+				col_idx = self._column_map.get(key.lower())
+			if col_idx is None:
+				raise _missing_col_error(key, "Row")
+			return self._raw_cols[col_idx][self._index]
 			 
 		# Fallback to standard vector slicing/masking
 		return super().__getitem__(key)
